@@ -37,6 +37,7 @@ MD = {
 # each pattern: list of (subdomain id, metadata key, integral type, cd?) terms
 PATTERNS = {
     "two_ids": [(1, "none", "dx"), (2, "none", "dx")],
+    "late_integral_type": [(4, "none", "dPatch"), (1, "none", "dx"), (4, "none", "dPatch"), ("everywhere", "none", "dPatch")],
     "overlap_tuples": [((1, 2), "none", "dx"), ((2, 3), "none", "dx")],
     "everywhere_plus_ids": [("everywhere", "none", "dx"), (1, "none", "dx"), ((1, 2), "none", "dx")],
     "only_everywhere": [("everywhere", "none", "dx"), ("everywhere", "none", "dx")],
@@ -111,6 +112,15 @@ def run(spec):
     from ufl.algorithms.domain_analysis import build_integral_data, group_form_integrals
 
     name = spec["name"]
+    if spec["pattern"] == "late_integral_type":
+        # history: a grouping happens first, THEN a new integral type is registered (public ufl.measure API) and a form
+        # using it is grouped in the same process
+        import ufl.measure
+
+        d0, F0 = build("two_ids")
+        group_form_integrals(F0, F0.ufl_domains(), do_append_everywhere_integrals=spec["append"])
+        if "cell_patch" not in ufl.measure.integral_type_to_measure_name:
+            ufl.measure.register_integral_type("cell_patch", "dPatch")
     dom, F = build(spec["pattern"])
     append = spec["append"]
     r0 = repr(F)
